@@ -463,6 +463,67 @@ func c11Oracle(c *fw.Ctx, cas c11Case, root string, im fsImage, touched string, 
 	}
 	if o := sys.Observe(m); o.BodyErr != "" || !strings.Contains(o.Body, "new mail") {
 		fail("new-mail-unreadable", "mail delivered after the crash cannot be read back")
+		return
+	}
+	// (e) life goes on from the recovered state (a non-initial state no test starts from): the
+	// messages that survived are removed one by one - each removal rewrites the index, shorter
+	// every time, over whatever the crash left behind - and after each step a freshly opened
+	// store must list exactly what is left, every message readable.
+	cur, err := c11Observe(st, []string{touched})
+	if err != nil {
+		fail("mailbox-unlistable-after-new-mail", "after the crash and one new delivery the mailbox cannot be listed: "+err.Error())
+		return
+	}
+	// removeChain removes want[0], want[1], ... until keep are left; after each removal a freshly
+	// opened store must list exactly the rest.
+	removeChain := func(sh *sys.StoreH, want []sys.ObsMsg, keep int, how string) ([]sys.ObsMsg, bool) {
+		for len(want) > keep {
+			victim := want[0]
+			if err := sh.Store.RemoveMessage(touched, victim.ID); err != nil {
+				fail("later-remove-fails", fmt.Sprintf("after the crash%s RemoveMessage(%q,%s) of a listed message fails: %v", how, touched, victim.ID, err))
+				return nil, false
+			}
+			want = want[1:]
+			sh.Reopen()
+			after, err := c11Observe(sh.Store, []string{touched})
+			if err != nil {
+				fail("later-unlistable", fmt.Sprintf("after the crash%s and the removal of %s, a freshly opened store cannot list mailbox %q: %v", how, victim.ID, touched, err))
+				return nil, false
+			}
+			if !obsEqual(after[touched], want) {
+				var ids []string
+				for _, m := range after[touched] {
+					ids = append(ids, m.ID+"/"+m.Subject)
+				}
+				fail("later-state-wrong", fmt.Sprintf("after the crash%s and the removal of %s, a freshly opened store lists %v for mailbox %q; %d message(s) should be left", how, victim.ID, ids, touched, len(want)))
+				return nil, false
+			}
+		}
+		return want, true
+	}
+	if _, ok := removeChain(sh, cur[touched], 1, ", one new delivery"); !ok {
+		return
+	}
+	// (f) the other order, from a second copy of the crash image: removals first (the first index
+	// rewrite after the crash is then a shorter one), new mail afterwards.
+	dst2 := sys.FreshDir()
+	defer os.RemoveAll(dst2)
+	if err := im.materialize(root, dst2); err != nil {
+		panic("VERIF-INFRA materialize: " + err.Error())
+	}
+	sh2 := sys.NewStore(sys.StoreSpec{Backend: "file", Cap: capN, Dir: dst2}, nil)
+	want, ok := removeChain(sh2, got[touched], 0, "")
+	if !ok {
+		return
+	}
+	if _, err := sh2.Store.AddMessage(sys.Delivery(touched, "after@x.test", []string{"t@x.test"}, "z", "Subject: z\r\n\r\nnew mail\r\n", time.Unix(1800000000, 0))); err != nil {
+		fail("rejects-new-mail", fmt.Sprintf("after the crash and the removal of every message AddMessage(%q) fails: %v", touched, err))
+		return
+	}
+	sh2.Reopen()
+	after, err := c11Observe(sh2.Store, []string{touched})
+	if err != nil || len(after[touched]) != len(want)+1 || after[touched][len(want)].Subject != "z" || after[touched][len(want)].BodyErr != "" {
+		fail("later-state-wrong", fmt.Sprintf("after the crash, the removal of every message and one new delivery, a freshly opened store lists %d message(s) for mailbox %q (err=%v); exactly the new one should be there", len(after[touched]), touched, err))
 	}
 }
 
